@@ -53,7 +53,9 @@ INVALID = ["none", "sec-type-None", "sec-type-empty", "nested-sec-type-None", "d
            "dup-id-doc-section", "dup-id-nested-section-vs-later-branch", "dup-id-properties-in-two-branches",
            "dup-id-nested-property-vs-later-section", "dup-name-sections", "dup-name-properties"]
 NATURAL = ["none", "xml-bad-char-in-value", "xml-bad-char-in-attribute", "xml-bad-char-in-name", "lone-surrogate-in-value",
-           "json-unencodable-doc-attr", "json-unencodable-sec-attr", "json-unencodable-prop-attr"]
+           "json-unencodable-doc-attr", "json-unencodable-sec-attr", "json-unencodable-prop-attr",
+           # causes that lie in the environment of the call, not in the document
+           "warnings-are-errors", "ascii-locale-with-non-ascii-text"]
 
 
 def build_doc(name, invalid, cause):
@@ -107,6 +109,9 @@ def build_doc(name, invalid, cause):
     elif cause == "lone-surrogate-in-value":
         # text no encoding can hold (an undecodable file name from os.fsdecode, say): fails while the text is encoded
         odml.Property("surr", values=["ok", "bad\udcff"], dtype="string", parent=s0)
+    elif cause == "ascii-locale-with-non-ascii-text":
+        odml.Property("cafe", values=["caf\u00e9", "\u00b5V"], dtype="string", parent=s0)
+        s0.definition = "na\u00efve \u20ac"
     elif cause == "json-unencodable-doc-attr":
         d.author = {1, 2}
     elif cause == "json-unencodable-sec-attr":
@@ -182,6 +187,27 @@ def call_entry(entry, fmt, opts, doc, path):
     if entry == "RDFWriter.write_file":
         return RDFWriter(doc).write_file(path, **opts)
     raise env.HarnessError(entry)
+
+
+def ascii_locale():
+    """The environment answer 'the preferred encoding is ASCII' (LC_ALL=C without UTF-8 mode): text files that the
+    writer modules open without naming an encoding are ASCII files.  Returns the function that undoes it."""
+    import builtins
+    import importlib
+    mods = [importlib.import_module(m) for m in ("odml.tools.odmlparser", "odml.tools.rdf_converter", "odml.tools.xmlparser")]
+
+    def ascii_open(file, mode="r", buffering=-1, encoding=None, *args, **kwargs):
+        if "b" not in mode and encoding is None:
+            encoding = "ascii"
+        return builtins.open(file, mode, buffering, encoding, *args, **kwargs)
+    for m in mods:
+        m.open = ascii_open
+
+    def undo():
+        for m in mods:
+            if m.__dict__.get("open") is ascii_open:
+                del m.open
+    return undo
 
 
 def ext_for(fmt, opts):
@@ -295,8 +321,10 @@ def _run(case, scratch):
     before = listing(work)
     snap0 = snapshot.snap(doc, identity=True)
     raised = None
+    undo_locale = ascii_locale() if natural == "ascii-locale-with-non-ascii-text" else None
     with warnings.catch_warnings(record=True) as caught:
-        warnings.simplefilter("always")
+        # an application (or a test run with -W error) may turn warnings into exceptions
+        warnings.simplefilter("error" if natural == "warnings-are-errors" else "always")
         try:
             if inject_at is not None:
                 with fault.site(case["cause"], raise_at=inject_at):
@@ -307,6 +335,9 @@ def _run(case, scratch):
             raise
         except BaseException as exc:
             raised = exc
+        finally:
+            if undo_locale:
+                undo_locale()
     execs += 1
     after = listing(work)
     validating = entry in ("odml.save", "ODMLWriter.write_file", "ODMLWriter.write_file:writer-used-twice")
